@@ -72,7 +72,7 @@ func GetValue(updValue *gnmi.TypedValue) (interface{}, error) {
 }
 
 func GetJsonValue(tv *sdcpb.TypedValue, ietf bool) (any, error) {
-	switch tv.Value.(type) {
+	switch tv.GetValue().(type) {
 	case *sdcpb.TypedValue_EmptyVal:
 		return map[string]any{}, nil
 	case *sdcpb.TypedValue_LeaflistVal:
@@ -472,7 +472,7 @@ func normalizeDecimal64(d *sdcpb.Decimal64) (int64, uint32) {
 }
 
 func TypedValueToString(tv *sdcpb.TypedValue) string {
-	switch tv.Value.(type) {
+	switch tv.GetValue().(type) {
 	case *sdcpb.TypedValue_AnyVal:
 		return string(tv.GetAnyVal().GetValue()) // questionable...
 	case *sdcpb.TypedValue_AsciiVal:
